@@ -599,6 +599,10 @@ class PipeGen:
     def shape_to(self, var, target):
         """Bring table `var` to visible columns `target` = [(name, fam)] (some order)."""
         t = self.t(var)
+        if self.cfg.exclude_known and t.agg_cols:
+            # K03 (open finding): shaping an ungrouped summary may deselect all of its columns
+            self.excluded["K03"] = self.excluded.get("K03", 0) + 1
+            return None
         eg = self.eg(var)
         items = []
         have = {n: t.fam[c] for n, c in t.visible}
